@@ -111,3 +111,81 @@ package actor
 //@   ensures pops: old(pid.behaviorStack.top) != nil ==> pid.behaviorStack.top == old((*bnode)(pid.behaviorStack.top).next)
 //@   ensures counts: old(pid.behaviorStack.top) != nil && old(pid.behaviorStack.length) >= 1 ==> pid.behaviorStack.length == old(pid.behaviorStack.length) - 1
 //@   ensures empty-stays-empty: old(pid.behaviorStack.top) == nil ==> pid.behaviorStack.top == nil && pid.behaviorStack.length == old(pid.behaviorStack.length)
+
+// ---------------------------------------------------------------------------
+//@ property C41
+// The replicator is a single actor: its handlers run one at a time (C01), so
+// "deleted keys stay deleted" is the actor invariant below, preserved by every
+// handler for every message.
+
+//@ spec func repl_t(r *replicatorActor) bool = r.store != nil && r.tombstones != nil && forall k string :: has(r.tombstones, k) ==> !has(r.store, k)
+
+// store and tombstones are written only by these functions (and never handed out)
+//@ structural mapwriters replicatorActor.store: (*replicatorActor).PreStart, (*replicatorActor).handleUpdate, (*replicatorActor).handleGet, (*replicatorActor).handleDelete, (*replicatorActor).handleProtoTombstone, (*replicatorActor).handleDelta, (*replicatorActor).handleFullState, (*replicatorActor).handlePrune, (*replicatorActor).restoreFromSnapshot
+//@ structural mapwriters replicatorActor.tombstones: (*replicatorActor).PreStart, (*replicatorActor).handleDelete, (*replicatorActor).handleProtoTombstone, (*replicatorActor).handlePrune
+
+//@ ghost var key string
+
+//@ func (*replicatorActor).handleUpdate(r, ctx, msg)
+//@   requires repl_t(r)
+//@   preserve replicatorActor.store, replicatorActor.tombstones
+//@   at call 1 of invoke KeyID ghost key = result
+//@   ensures invariant: repl_t(r)
+//@   ensures tombstoned-key-rejected: old(has(r.tombstones, now(key))) ==> forall k string :: has(r.store, k) == old(has(r.store, k)) && r.store[k] == old(r.store[k])
+//@   ensures tombstones-untouched: forall k string :: has(r.tombstones, k) == old(has(r.tombstones, k))
+
+//@ func (*replicatorActor).handleGet(r, ctx, msg)
+//@   requires repl_t(r)
+//@   preserve replicatorActor.store, replicatorActor.tombstones
+//@   at call 1 of invoke KeyID ghost key = result
+//@   at call 1 of invoke Response assert tombstoned-exposes-no-value: old(has(r.tombstones, now(key))) ==> arg1 == nil
+//@   at call 2 of invoke Response assert tombstoned-exposes-no-value: old(has(r.tombstones, now(key))) ==> arg1 == nil
+//@   ensures invariant: repl_t(r)
+//@   ensures tombstoned-key-not-restored: old(has(r.tombstones, now(key))) ==> forall k string :: has(r.store, k) == old(has(r.store, k))
+//@   ensures tombstones-untouched: forall k string :: has(r.tombstones, k) == old(has(r.tombstones, k))
+
+//@ func (*replicatorActor).handleDelete(r, ctx, msg)
+//@   requires repl_t(r)
+//@   preserve replicatorActor.store, replicatorActor.tombstones
+//@   at call 1 of invoke KeyID ghost key = result
+//@   ensures invariant: repl_t(r)
+//@   ensures deleted-and-tombstoned: has(r.tombstones, key) && !has(r.store, key)
+//@   ensures other-tombstones-kept: forall k string :: old(has(r.tombstones, k)) ==> has(r.tombstones, k)
+
+//@ func (*replicatorActor).handleProtoTombstone(r, msg)
+//@   requires repl_t(r)
+//@   preserve replicatorActor.store, replicatorActor.tombstones
+//@   ensures invariant: repl_t(r)
+//@   ensures other-tombstones-kept: forall k string :: old(has(r.tombstones, k)) ==> has(r.tombstones, k)
+
+//@ func (*replicatorActor).handleDelta(r, ctx, msg)
+//@   requires repl_t(r) && msg != nil
+//@   preserve replicatorActor.store, replicatorActor.tombstones
+//@   ensures invariant: repl_t(r)
+//@   ensures tombstoned-key-rejected: old(has(r.tombstones, msg.KeyID)) ==> forall k string :: has(r.store, k) == old(has(r.store, k)) && r.store[k] == old(r.store[k])
+//@   ensures tombstones-untouched: forall k string :: has(r.tombstones, k) == old(has(r.tombstones, k))
+
+//@ func (*replicatorActor).handleFullState(r, ctx, msg)
+//@   requires repl_t(r)
+//@   preserve replicatorActor.store, replicatorActor.tombstones
+//@   loop 1 invariant invariant: repl_t(r)
+//@   loop 1 invariant tombstones-untouched: forall k string :: has(r.tombstones, k) == old(has(r.tombstones, k))
+//@   loop 1 invariant tombstoned-never-stored: forall k string :: old(has(r.tombstones, k)) ==> !has(r.store, k)
+//@   ensures invariant: repl_t(r)
+//@   ensures tombstones-untouched: forall k string :: has(r.tombstones, k) == old(has(r.tombstones, k))
+
+//@ func (*replicatorActor).handleProtoDelta(r, ctx, msg)
+//@   requires repl_t(r)
+//@   preserve replicatorActor.store, replicatorActor.tombstones
+//@   ensures invariant: repl_t(r)
+//@   ensures tombstones-untouched: forall k string :: has(r.tombstones, k) == old(has(r.tombstones, k))
+
+//@ func (*replicatorActor).handleIncomingBatch(r, ctx, batch)
+//@   requires repl_t(r)
+//@   preserve replicatorActor.store, replicatorActor.tombstones
+//@   loop 1 invariant invariant: repl_t(r)
+//@   loop 1 invariant tombstones-kept: forall k string :: old(has(r.tombstones, k)) ==> has(r.tombstones, k)
+//@   loop 2 invariant invariant: repl_t(r)
+//@   loop 2 invariant tombstones-kept: forall k string :: old(has(r.tombstones, k)) ==> has(r.tombstones, k)
+//@   ensures invariant: repl_t(r)
+//@   ensures tombstones-kept: forall k string :: old(has(r.tombstones, k)) ==> has(r.tombstones, k)
